@@ -11,17 +11,14 @@ import (
 	"gocqlverif/hlib"
 )
 
-// finding ids (tools/props/C12.findings.json, C02.findings.json)
+// ids of the OPEN findings (tools/props/C12.findings.json, C02.findings.json).  The findings repaired in
+// /repo (big.Int into bigint, named int64 into duration, pre-epoch / out-of-range dates, null tuple
+// components, untyped nil for a tuple, null into *inf.Dec / *net.IP / *[16]byte / *time.Time) are not
+// tagged any more: a violation in their regions is a plain VIOLATION.
 const (
-	FBigIntMinimal = "bigint-from-bigInt-minimal-length"
-	FDurNamed      = "duration-from-named-int64-raw"
-	FDatePreEpoch  = "date-before-epoch-truncated"
-	FTupleNil      = "tuple-null-component-length-zero"
-	FUnsignedWrap  = "unsigned-reinterpreted-as-signed"
-	FVarint9       = "varint-9-byte-only-into-uint64"
-	FTupleNilPanic = "tuple-untyped-nil-panics"
-	FNullRejected  = "null-rejected-by-value-target"
-	FDateRange     = "date-day-number-wraps"
+	FUnsignedWrap = "unsigned-reinterpreted-as-signed"
+	FVarint9      = "varint-9-byte-only-into-uint64"
+	FNullArray    = "null-into-array-target-rejected"
 )
 
 type Runner struct {
@@ -50,39 +47,17 @@ func signedMaxOfColumn(id int) *big.Int {
 
 func minimal2cLen(z *big.Int) int { return size2c(z) }
 
-// MarshalFindings: the known-finding triggers present in (t, v), walking the value along the type.
+// MarshalFindings: the open-finding triggers present in (t, v), walking the value along the type.
 func MarshalFindings(t *Ty, v *Val, out map[string]bool) {
-	v0 := v
 	v = peel(v)
 	if v == nil {
 		return
 	}
 	switch t.K {
 	case "native":
-		id := t.ID
-		if mx := signedMaxOfColumn(id); mx != nil {
+		if mx := signedMaxOfColumn(t.ID); mx != nil {
 			if v.K == "int" && !v.T.IK.Signed() && v.Z.Cmp(mx) > 0 {
 				out[FUnsignedWrap] = true
-			}
-			if (id == 0x02 || id == 0x05) && v.K == "big" && minimal2cLen(v.Z) != 8 {
-				out[FBigIntMinimal] = true
-			}
-		}
-		if id == 0x15 && v.K == "int" && v.T.IK == I64 && v.T.Named {
-			out[FDurNamed] = true
-		}
-		if id == 0x11 {
-			var ms *big.Int
-			if v.K == "int" && v.T.IK == I64 && !v.T.Named {
-				ms = v.Z
-			} else if v.K == "time" && !v.isZeroTime() {
-				ms = v.millis()
-			}
-			if ms != nil && ms.Sign() < 0 && new(big.Int).Mod(ms, big.NewInt(86400000)).Sign() != 0 {
-				out[FDatePreEpoch] = true
-			}
-			if ms != nil && !fitsSigned(4, floorDiv(ms, big.NewInt(86400000))) {
-				out[FDateRange] = true
 			}
 		}
 	case "list", "set":
@@ -100,22 +75,11 @@ func MarshalFindings(t *Ty, v *Val, out map[string]bool) {
 			}
 		}
 	case "tuple":
-		if v.K == "nil" {
-			out[FTupleNilPanic] = true
-			return
-		}
 		switch v.K {
 		case "ifaces", "struct", "slice", "array":
 			for i, e := range v.L {
 				if i >= len(t.Es) {
 					break
-				}
-				_, null, ok := Denote(t.Es[i], e)
-				if ok && null {
-					minusOne := e.K == "nil" && v.K == "ifaces" || v.K != "ifaces" && e.K == "ptr" && e.P == nil
-					if !minusOne && !(t.Es[i].K == "tuple" && peel(e) != nil && peel(e).K == "nil") {
-						out[FTupleNil] = true
-					}
 				}
 				MarshalFindings(t.Es[i], e, out)
 			}
@@ -138,7 +102,6 @@ func MarshalFindings(t *Ty, v *Val, out map[string]bool) {
 			}
 		}
 	}
-	_ = v0
 }
 
 func firstFinding(m map[string]bool, order ...string) string {
@@ -361,7 +324,7 @@ func (rn *Runner) MarshalCase(kind string, pv int, t *Ty, v *Val, specMonitor bo
 	input := map[string]string{"pv": fmt.Sprint(pv), "type": t.String(), "value": v.Coq()}
 	c, null, ok := Denote(t, v)
 	if cls == ClsPanic {
-		o.Violate(idx, "marshal-panics", firstFinding(fm, FTupleNilPanic), "Marshal panicked: "+msg, input)
+		o.Violate(idx, "marshal-panics", "", "Marshal panicked: "+msg, input)
 		return out, cls, idx
 	}
 	if !ok {
@@ -380,12 +343,12 @@ func (rn *Runner) MarshalCase(kind string, pv int, t *Ty, v *Val, specMonitor bo
 	}
 	exp, eok := SpecEncode(pv, t, c)
 	if !eok {
-		o.Violate(idx, "encodes-unrepresentable-value", firstFinding(fm, FUnsignedWrap, FBigIntMinimal, FDateRange, FDatePreEpoch),
+		o.Violate(idx, "encodes-unrepresentable-value", firstFinding(fm, FUnsignedWrap),
 			fmt.Sprintf("value %s is not a value of %s, yet Marshal returned %x instead of an error", c.short(), t.String(), out), input)
 		return out, cls, idx
 	}
 	if out == nil || !bytes.Equal(out, exp) {
-		o.Violate(idx, "not-the-specified-bytes", firstFinding(fm, FBigIntMinimal, FDurNamed, FDatePreEpoch, FTupleNil, FUnsignedWrap),
+		o.Violate(idx, "not-the-specified-bytes", firstFinding(fm, FUnsignedWrap),
 			fmt.Sprintf("Marshal returned %x (nil=%v), the specification's encoding of %s is %x", out, out == nil, c.short(), exp), input)
 	}
 	return out, cls, idx
@@ -550,26 +513,9 @@ func Fits(t *Ty, c *CV, g *GTy) bool {
 
 func Representable(t *Ty, c *CV, g *GTy) bool { return Compatible(t, g) && Fits(t, c, g) }
 
-// nullRejectedPair: (column type, non-pointer target) pairs for which the decoder returns an error on a
-// null / empty value instead of storing the zero value (finding FNullRejected)
+// nullIntoArray: null data for a list / set column read into a Go array (kept finding: explicit error)
 func nullRejectedPair(t *Ty, g *GTy) bool {
-	if g.K == "ptr" {
-		return false
-	}
-	switch t.K {
-	case "native":
-		switch {
-		case t.ID == 0x06:
-			return g.K == "dec"
-		case t.ID == 0x10:
-			return g.K == "ip"
-		case t.ID == 0x0C || t.ID == 0x0F:
-			return g.K == "arr16" || t.ID == 0x0F && g.K == "time"
-		}
-	case "list", "set":
-		return g.K == "array"
-	}
-	return false
+	return (t.K == "list" || t.K == "set") && g.K == "array"
 }
 
 // DecodeFindings: known-finding triggers on the decode side for value c of type t into target g.
@@ -585,7 +531,7 @@ func DecodeFindings(t *Ty, c *CV, g *GTy, out map[string]bool) {
 	}
 	if c == nil {
 		if nullRejectedPair(t, g) {
-			out[FNullRejected] = true
+			out[FNullArray] = true
 		}
 		if t.K == "tuple" && g.K == "ifaces" { // a null tuple hands nil to every component target
 			for i := range t.Es {
@@ -688,7 +634,7 @@ func (rn *Runner) DecodeCase(kind string, pv int, t *Ty, data []byte, g *GTy, c 
 			if cls == ClsPanic {
 				k = "unmarshal-panics-on-" + what
 			}
-			o.Violate(idx, k, firstFinding(fm, FVarint9, FNullRejected), fmt.Sprintf("Unmarshal into %s failed (%s) though the target can hold %s", g.Coq(), msg, c.short()), input)
+			o.Violate(idx, k, firstFinding(fm, FVarint9, FNullArray), fmt.Sprintf("Unmarshal into %s failed (%s) though the target can hold %s", g.Coq(), msg, c.short()), input)
 		} else {
 			rn.Stat["unmarshal-error-not-representable"]++
 		}
@@ -875,7 +821,7 @@ func (rn *Runner) RoundTrip(kind string, pv int, t *Ty, v *Val, targets []*GTy) 
 	if cls == ClsPanic {
 		pf := map[string]bool{}
 		MarshalFindings(t, v, pf)
-		o.Violate(midx, "marshal-panics", firstFinding(pf, FTupleNilPanic), "Marshal panicked instead of returning bytes or an error",
+		o.Violate(midx, "marshal-panics", "", "Marshal panicked instead of returning bytes or an error",
 			map[string]string{"pv": fmt.Sprint(pv), "type": t.String(), "value": v.Coq()})
 	}
 	if cls != ClsOk {
@@ -907,7 +853,7 @@ func (rn *Runner) RoundTrip(kind string, pv int, t *Ty, v *Val, targets []*GTy) 
 			cc = c
 		}
 		DecodeFindings(t, cc, g, fm)
-		order := []string{FBigIntMinimal, FDurNamed, FDateRange, FDatePreEpoch, FUnsignedWrap, FVarint9, FNullRejected, FTupleNil}
+		order := []string{FUnsignedWrap, FVarint9, FNullArray}
 		if pv <= 2 && cc.HasNullElem() {
 			rn.Stat["rt-null-element-on-protocol-1-2"]++ // not expressible there; written as the empty value
 			continue
